@@ -168,6 +168,29 @@ def build_exe(name, harness_srcs, flavor="asan", repo_cpp=(), extra_flags=(), ex
     return exe, ""
 
 
+def build_vrt_exe(name, harness_srcs, repo_cpp=(), extra_flags=()):
+    """Harness + repo sources compiled with -fsanitize=thread (every atomic becomes a __tsan_* call),
+    linked without it against vrt/vrt.cpp which supplies the runtime (deterministic scheduler)."""
+    return build_exe(name, harness_srcs, "vrt", repo_cpp, extra_flags,
+                     extra_srcs_flags=[("vrt/vrt.cpp", ["-O1", "-g"])])
+
+
+def parse_runs(text):
+    """split harness output into runs: [{header:[...], lines:[...], complete:bool}]"""
+    runs, cur = [], None
+    for line in text.splitlines():
+        if line.startswith("RUN "):
+            cur = {"header": line.split()[1:], "lines": [], "complete": False}
+            runs.append(cur)
+        elif line.strip() == "END":
+            if cur is not None:
+                cur["complete"] = True
+            cur = None
+        elif cur is not None:
+            cur["lines"].append(line)
+    return runs
+
+
 # ---------------------------------------------------------------------------------------
 # Lean side
 def lake(args, timeout=3600):
@@ -412,6 +435,64 @@ class Ctx:
                 diffs += res
         self.cov["evaluations"] += len(cases)
         return diffs
+
+    # ---- E-CONC
+    def econc(self, exe, drv, args, seed0, nruns, chunk=None, env=None, timeout=600):
+        """Run `exe *args <seed> <n>` over seeds seed0..seed0+nruns-1 (VRT harness: one deterministic
+        schedule + program per seed), replay every trace in lock-step through the Lean driver
+        `drv` (if given).  Returns a list of run dicts:
+          seed, header, lines, verdict ('ok' | 'deadlock' | 'step-limit' | 'crash' ...),
+          oracle (list of ORACLE event lines), races (list), replay ('ok N' | 'diverge ...' | None)"""
+        chunk = chunk or max(1, nruns // (NPROC * 2) + 1)
+        jobs = [(seed0 + i, min(chunk, nruns - i)) for i in range(0, nruns, chunk)]
+        e = dict(os.environ)
+        e.update(env or {})
+
+        def one(job):
+            s0, n = job
+            out = []
+            s = s0
+            while s < s0 + n:
+                r = subprocess.run([str(exe)] + list(args) + [str(s), str(s0 + n - s)], capture_output=True, text=True, timeout=timeout, env=e)
+                runs = parse_runs(r.stdout)
+                for k, run in enumerate(runs):
+                    run["seed"] = s + k
+                    run["verdict"] = "ok"
+                    for l in run["lines"]:
+                        if l.startswith("VERDICT"):
+                            run["verdict"] = l.split()[1]
+                    run["stderr"] = ""
+                    out.append(run)
+                if r.returncode == 0 and len(runs) >= s0 + n - s:
+                    break
+                # the process ended early (deadlock verdict, sanitizer/assert abort, crash): the last run is the culprit
+                if not runs:
+                    out.append({"seed": s, "header": [], "lines": [], "complete": False, "verdict": "crash", "stderr": r.stderr[-2000:]})
+                    s += 1
+                    continue
+                last = runs[-1]
+                if last["verdict"] == "ok" and (r.returncode != 0 or not last["complete"]):
+                    last["verdict"] = "crash rc=%s" % r.returncode
+                    last["stderr"] = r.stderr[-2000:]
+                s += len(runs)
+            if drv is not None and out:
+                text = "".join("RUN %s\n%s\nEND\n" % (" ".join(run["header"]), "\n".join(run["lines"])) for run in out)
+                rm = subprocess.run([str(drv)], input=text, capture_output=True, text=True, timeout=timeout)
+                res = rm.stdout.splitlines()
+                for k, run in enumerate(out):
+                    run["replay"] = res[k] if k < len(res) else "diverge <driver produced no verdict: rc=%s %s>" % (rm.returncode, rm.stderr[-300:])
+            for run in out:
+                run.setdefault("replay", None)
+                run["oracle"] = [l for l in run["lines"] if " ev ORACLE" in l]
+                run["races"] = [l for l in run["lines"] if re.match(r"\d+ race ", l)]
+            return out
+
+        allruns = []
+        with concurrent.futures.ThreadPoolExecutor(max_workers=NPROC) as ex:
+            for res in ex.map(one, jobs):
+                allruns += res
+        self.cov["evaluations"] += len(allruns)
+        return allruns
 
     def run_lines(self, exe, lines, args=(), timeout=600):
         r = subprocess.run([str(exe)] + list(args), input="\n".join(lines) + "\n", capture_output=True, text=True, timeout=timeout)
